@@ -128,6 +128,10 @@ func (n *rnode) encode(target *int, dev int, applied *string) []byte {
 			*applied = "integer-leading-zero"
 			z := append([]byte{0}, s...)
 			return append(lenPrefix(0x80, len(z), false), z...)
+		case dev == 13 && len(s) == 0:
+			// the integer zero written as the byte 0x00 instead of the empty string 0x80
+			*applied = "zero-as-byte-00"
+			return []byte{0x00}
 		case dev == 4 && len(s) < 256:
 			*applied = "length-with-leading-zero"
 			l := len(s)
@@ -236,7 +240,7 @@ func MutateStructured(c *kit.Chooser, data []byte) (out []byte, how string, ok b
 	n := root.count()
 	for attempt := 0; attempt < 6; attempt++ {
 		t := c.Intn("item", n)
-		dev := c.Intn("deviation", 13)
+		dev := c.Intn("deviation", 14)
 		applied := ""
 		out := root.encode(&t, dev, &applied)
 		if applied != "" {
